@@ -56,6 +56,17 @@ CLAIMED = {
         note='canonical values assumed (produced by C01/C02-checked converters); sort(1), cut(1), pipes outside',
         technique='CBMC bounded model checking of comparison functions against the integer order of day numbers',
         design='3/C08'),
+    'C11': dict(
+        text=('Bounded model checking of lib/time-core.c and lib/dt-core.c: dt_tadd_s exact for every time of day '
+              'and |n| < 86400 (its precondition inside dt_dtadd); dt_dtadd for s/m/h counts with the callee '
+              'replaced by that proven contract; dt_dtdiff in seconds for every pair of day-number date-times '
+              'within 40 days over the whole range; epoch <-> civil for every second of selected day windows '
+              '(negative epochs, both range ends, leap days); 24:00:00 decays to next-day midnight.'),
+        note=('reference: sum over units of field difference x unit length; assume-guarantee stub for dt_tadd_s '
+              '(postcondition proven on the real function in the same run); counts bounded (s<=1024, m<=60, h<=30 '
+              'quick) because 64-bit division by 86400 stalls the SAT back ends; SMT back ends crash on these units'),
+        technique='CBMC bounded model checking with one assume-guarantee contract (dt_tadd_s)',
+        design='3/C11'),
 }
 
 NA = {}
